@@ -16,20 +16,46 @@ import (
 )
 
 // env is the path-sensitive part of a key: phi choices and the last store to local allocs.
+//
+// When the path walker inlines a call of a small helper (paths.go), the environment also carries the
+// binding of the helper's parameters to the caller's argument values (par) and of the call's results
+// to the values the helper returned on this path (res). A result is closed over a snapshot of the
+// environment at the helper's return, so inlining the same helper again later does not disturb it.
 type env struct {
 	mem map[*ssa.Alloc]ssa.Value
 	phi map[*ssa.Phi]ssa.Value
+	par map[*ssa.Parameter]ssa.Value
+	res map[ssa.Value]binding
+	dom bool // dominator mode with parameter bindings only (calling-context lifting): allocs by single store
+}
+
+type binding struct {
+	val ssa.Value
+	env *env
 }
 
 func newEnv() *env { return &env{mem: map[*ssa.Alloc]ssa.Value{}, phi: map[*ssa.Phi]ssa.Value{}} }
 
 func (e *env) clone() *env {
 	n := newEnv()
+	n.dom = e.dom
 	for k, v := range e.mem {
 		n.mem[k] = v
 	}
 	for k, v := range e.phi {
 		n.phi[k] = v
+	}
+	if e.par != nil {
+		n.par = make(map[*ssa.Parameter]ssa.Value, len(e.par))
+		for k, v := range e.par {
+			n.par[k] = v
+		}
+	}
+	if e.res != nil {
+		n.res = make(map[ssa.Value]binding, len(e.res))
+		for k, v := range e.res {
+			n.res[k] = v
+		}
 	}
 	return n
 }
@@ -82,7 +108,37 @@ func singleStore(a *ssa.Alloc) ssa.Value {
 
 // resolve strips path-resolved phis, loads of local allocs, and transparent conversions.
 func (c *Ctx) resolve(v ssa.Value, e *env) ssa.Value {
-	for i := 0; i < 50; i++ {
+	v, _ = c.resolveE(v, e)
+	return v
+}
+
+// resolveE also follows the bindings made by inlined calls; the returned environment is the one the
+// returned value's operands must be read in.
+func (c *Ctx) resolveE(v ssa.Value, e *env) (ssa.Value, *env) {
+	return c.resolveX(v, e, true)
+}
+
+// resolveX: strip=false keeps MakeInterface/ChangeInterface (needed to tell a nil interface from an
+// interface holding a nil pointer).
+func (c *Ctx) resolveX(v ssa.Value, e *env, strip bool) (ssa.Value, *env) {
+	if e == nil {
+		e = c.ctxEnv
+	}
+	for i := 0; i < 80; i++ {
+		if e != nil {
+			if p, ok := v.(*ssa.Parameter); ok && e.par != nil {
+				if b, ok := e.par[p]; ok {
+					v = b
+					continue
+				}
+			}
+			if e.res != nil {
+				if b, ok := e.res[v]; ok {
+					v, e = b.val, b.env
+					continue
+				}
+			}
+		}
 		switch x := v.(type) {
 		case *ssa.Phi:
 			if e != nil {
@@ -108,11 +164,11 @@ func (c *Ctx) resolve(v ssa.Value, e *env) ssa.Value {
 				v = only
 				continue
 			}
-			return v
+			return v, e
 		case *ssa.UnOp:
 			if x.Op == token.MUL {
 				if a, ok := x.X.(*ssa.Alloc); ok {
-					if e != nil {
+					if e != nil && !e.dom {
 						if r, ok := e.mem[a]; ok {
 							v = r
 							continue
@@ -123,13 +179,16 @@ func (c *Ctx) resolve(v ssa.Value, e *env) ssa.Value {
 					}
 				}
 			}
-			return v
+			return v, e
 		case *ssa.MakeInterface:
+			if !strip {
+				return v, e
+			}
 			v = x.X
 			continue
 		case *ssa.ChangeType:
 			if _, basic := x.Type().Underlying().(*types.Basic); basic {
-				return v // e.g. string -> expr.Column: the named type matters
+				return v, e // e.g. string -> expr.Column: the named type matters
 			}
 			v = x.X
 			continue
@@ -137,10 +196,10 @@ func (c *Ctx) resolve(v ssa.Value, e *env) ssa.Value {
 			v = x.X
 			continue
 		default:
-			return v
+			return v, e
 		}
 	}
-	return v
+	return v, e
 }
 
 func (c *Ctx) constName(k *ssa.Const) string {
@@ -175,7 +234,7 @@ func (c *Ctx) keyD(v ssa.Value, e *env, depth int, seen map[ssa.Value]bool) stri
 	if depth > 40 {
 		return "…"
 	}
-	v = c.resolve(v, e)
+	v, e = c.resolveE(v, e)
 	k := func(x ssa.Value) string { return c.keyD(x, e, depth+1, seen) }
 	switch x := v.(type) {
 	case *ssa.Parameter:
@@ -196,7 +255,7 @@ func (c *Ctx) keyD(v ssa.Value, e *env, depth int, seen map[ssa.Value]bool) stri
 	case *ssa.Builtin:
 		return "builtin:" + x.Name()
 	case *ssa.Alloc:
-		if e != nil {
+		if e != nil && !e.dom {
 			if r, ok := e.mem[x]; ok {
 				return k(r)
 			}
@@ -209,10 +268,19 @@ func (c *Ctx) keyD(v ssa.Value, e *env, depth int, seen map[ssa.Value]bool) stri
 	case *ssa.Field:
 		return k(x.X) + "." + fieldName(x.X.Type(), x.Field)
 	case *ssa.IndexAddr:
+		if s, ok := c.viewIndexKey(x.X, x.Index, e); ok {
+			return s
+		}
 		return k(x.X) + "[" + k(x.Index) + "]"
 	case *ssa.Index:
+		if s, ok := c.viewIndexKey(x.X, x.Index, e); ok {
+			return s
+		}
 		return k(x.X) + "[" + k(x.Index) + "]"
 	case *ssa.Lookup:
+		if s, ok := c.viewIndexKey(x.X, x.Index, e); ok {
+			return s
+		}
 		return k(x.X) + "[" + k(x.Index) + "]"
 	case *ssa.UnOp:
 		switch x.Op {
@@ -297,6 +365,74 @@ func uniq(s []string) []string {
 	return out
 }
 
+// sliceView: v is base[a:len(base)-b] with constant a, b (either may be absent) — a window into base.
+func (c *Ctx) sliceView(v ssa.Value, e *env) (base ssa.Value, be *env, a, b int64, ok bool) {
+	rv, re := c.resolveE(v, e)
+	sl, isS := rv.(*ssa.Slice)
+	if !isS || sl.Max != nil {
+		return nil, nil, 0, 0, false
+	}
+	if _, isArr := sl.X.Type().Underlying().(*types.Pointer); isArr {
+		return nil, nil, 0, 0, false
+	}
+	if sl.Low != nil {
+		n, isC := constIntVal(c.resolve(sl.Low, re))
+		if !isC || n < 0 {
+			return nil, nil, 0, 0, false
+		}
+		a = n
+	}
+	if sl.High != nil {
+		hv, he := c.resolveE(sl.High, re)
+		bo, isB := hv.(*ssa.BinOp)
+		if !isB || bo.Op != token.SUB {
+			return nil, nil, 0, 0, false
+		}
+		n, isC := constIntVal(c.resolve(bo.Y, he))
+		lv, le := c.resolveE(bo.X, he)
+		call, isCall := lv.(*ssa.Call)
+		if !isC || n < 0 || !isCall {
+			return nil, nil, 0, 0, false
+		}
+		if bi, isBi := call.Call.Value.(*ssa.Builtin); !isBi || bi.Name() != "len" || c.key(call.Call.Args[0], le) != c.key(sl.X, re) {
+			return nil, nil, 0, 0, false
+		}
+		b = n
+	}
+	if a == 0 && b == 0 {
+		return nil, nil, 0, 0, false
+	}
+	return sl.X, re, a, b, true
+}
+
+// viewIndexKey: an index into a window base[a:len-b] is keyed as the index into base, so the same
+// element has the same key whether it is read through the window or directly.
+func (c *Ctx) viewIndexKey(x, idx ssa.Value, e *env) (string, bool) {
+	base, be, a, b, ok := c.sliceView(x, e)
+	if !ok {
+		return "", false
+	}
+	bk := c.key(base, be)
+	iv, ie := c.resolveE(idx, e)
+	if n, isC := constIntVal(iv); isC {
+		return fmt.Sprintf("%s[%d]", bk, a+n), true
+	}
+	if bo, isB := iv.(*ssa.BinOp); isB && bo.Op == token.SUB {
+		if n, isC := constIntVal(c.resolve(bo.Y, ie)); isC {
+			lv, le := c.resolveE(bo.X, ie)
+			if call, isCall := lv.(*ssa.Call); isCall {
+				if bi, isBi := call.Call.Value.(*ssa.Builtin); isBi && bi.Name() == "len" {
+					// len of the window itself
+					if vb, vbe, va, vbb, ok2 := c.sliceView(call.Call.Args[0], le); ok2 && va == a && vbb == b && c.key(vb, vbe) == bk {
+						return fmt.Sprintf("%s[(len(%s) - %d)]", bk, bk, b+n), true
+					}
+				}
+			}
+		}
+	}
+	return "", false
+}
+
 // pureAccessor: a single-block module function without calls (except len/cap) or stores whose only
 // result is an expression over its parameters — e.g. func (l *Lexer) currWord() string
 // { return l.input[l.start:l.pos] }. Calls of such functions are keyed by the expression itself.
@@ -374,6 +510,65 @@ func fieldVar(t types.Type, i int) *types.Var {
 	return nil
 }
 
+// foldCmp decides an ==/!= comparison whose operands are known along the path: two constants, or nil
+// against a value that cannot be nil (a fresh error from fmt.Errorf/errors.New, a boxed value, an
+// allocation, a function).
+func (c *Ctx) foldCmp(cond ssa.Value, e *env) (val, ok bool) {
+	cond, e = c.resolveE(cond, e)
+	neg := false
+	for {
+		u, isU := cond.(*ssa.UnOp)
+		if !isU || u.Op != token.NOT {
+			break
+		}
+		neg = !neg
+		cond, e = c.resolveE(u.X, e)
+	}
+	bo, isB := cond.(*ssa.BinOp)
+	if !isB || (bo.Op != token.EQL && bo.Op != token.NEQ) {
+		return false, false
+	}
+	l, _ := c.resolveX(bo.X, e, false)
+	r, _ := c.resolveX(bo.Y, e, false)
+	eq, known := false, false
+	lk, lc := l.(*ssa.Const)
+	rk, rc := r.(*ssa.Const)
+	switch {
+	case lc && rc:
+		if lk.Value == nil || rk.Value == nil {
+			eq, known = lk.Value == nil && rk.Value == nil, true
+		} else if lk.Value.Kind() == rk.Value.Kind() {
+			eq, known = constant.Compare(lk.Value, token.EQL, rk.Value), true
+		}
+	case lc && lk.Value == nil && neverNil(r), rc && rk.Value == nil && neverNil(l):
+		eq, known = false, true
+	}
+	if !known {
+		return false, false
+	}
+	res := eq
+	if bo.Op == token.NEQ {
+		res = !eq
+	}
+	if neg {
+		res = !res
+	}
+	return res, true
+}
+
+func neverNil(v ssa.Value) bool {
+	switch x := v.(type) {
+	case *ssa.MakeInterface, *ssa.Alloc, *ssa.Function, *ssa.MakeClosure, *ssa.MakeMap, *ssa.MakeSlice, *ssa.MakeChan:
+		return true
+	case *ssa.Call:
+		switch calleeFullName(x) {
+		case "fmt.Errorf", "errors.New":
+			return true
+		}
+	}
+	return false
+}
+
 // ---------------------------------------------------------------------------------------------
 // Atoms
 
@@ -388,6 +583,7 @@ type Atom struct {
 	Src  ssa.Value
 	Args []ssa.Value // for call atoms: argument values
 	Fn   *ssa.Function
+	Env  *env // environment the atom's Src/Args are read in (set by the path walker)
 }
 
 func (a Atom) String() string {
@@ -445,7 +641,7 @@ func constIntVal(v ssa.Value) (int64, bool) {
 
 // atoms converts "cond has truth value pol" into a conjunction of atoms (possibly one "other").
 func (c *Ctx) atoms(cond ssa.Value, pol bool, e *env) []Atom {
-	cond = c.resolve(cond, e)
+	cond, e = c.resolveE(cond, e)
 	switch x := cond.(type) {
 	case *ssa.UnOp:
 		if x.Op == token.NOT {
@@ -456,10 +652,12 @@ func (c *Ctx) atoms(cond ssa.Value, pol bool, e *env) []Atom {
 	case *ssa.BinOp:
 		if isCmp(x.Op) {
 			op := x.Op.String()
-			l, r := c.resolve(x.X, e), c.resolve(x.Y, e)
+			l, le := c.resolveE(x.X, e)
+			r, re := c.resolveE(x.Y, e)
 			if _, lc := l.(*ssa.Const); lc {
 				if _, rc := r.(*ssa.Const); !rc {
 					l, r = r, l
+					le, re = re, le
 					op = flipOp[op]
 				}
 			}
@@ -470,33 +668,39 @@ func (c *Ctx) atoms(cond ssa.Value, pol bool, e *env) []Atom {
 			if call, ok := l.(*ssa.Call); ok {
 				if b, ok := call.Call.Value.(*ssa.Builtin); ok && b.Name() == "len" {
 					if n, ok := constIntVal(r); ok {
-						return []Atom{{Kind: "len", Subj: c.key(call.Call.Args[0], e), Op: op, N: n, Src: cond}}
+						if base, be, a, b, isView := c.sliceView(call.Call.Args[0], le); isView {
+							// len(base[a:len-b]) ⋈ n  ⇔  len(base) ⋈ n+a+b (given the slice expression did not panic)
+							return []Atom{{Kind: "len", Subj: c.key(base, be), Op: op, N: n + a + b, Src: cond}}
+						}
+						return []Atom{{Kind: "len", Subj: c.key(call.Call.Args[0], le), Op: op, N: n, Src: cond}}
 					}
 				}
 			}
 			if rk, ok := r.(*ssa.Const); ok && rk.Value == nil && (op == "==" || op == "!=") {
-				return []Atom{{Kind: "nil", Subj: c.key(l, e), Pos: op == "==", Src: cond}}
+				return []Atom{{Kind: "nil", Subj: c.key(l, le), Pos: op == "==", Src: cond}}
 			}
-			return []Atom{{Kind: "cmp", Subj: c.key(l, e), Op: op, Val: c.key(r, e), Src: cond}}
+			return []Atom{{Kind: "cmp", Subj: c.key(l, le), Op: op, Val: c.key(r, re), Src: cond}}
 		}
 	case *ssa.Extract:
 		if ta, ok := x.Tuple.(*ssa.TypeAssert); ok && x.Index == 1 {
-			return []Atom{{Kind: "type", Subj: c.key(ta.X, e), Val: typeStr(ta.AssertedType), Pos: pol, Src: cond, Args: []ssa.Value{ta.X}}}
+			return []Atom{{Kind: "type", Subj: c.key(ta.X, e), Val: typeStr(ta.AssertedType), Pos: pol, Src: cond, Args: []ssa.Value{c.resolve(ta.X, e)}}}
 		}
 		if lk, ok := x.Tuple.(*ssa.Lookup); ok && x.Index == 1 {
-			return []Atom{{Kind: "call", Subj: "haskey:" + c.key(lk.X, e), Val: c.key(lk.Index, e), Pos: pol, Src: cond, Args: []ssa.Value{lk.Index}}}
+			return []Atom{{Kind: "call", Subj: "haskey:" + c.key(lk.X, e), Val: c.key(lk.Index, e), Pos: pol, Src: cond, Args: []ssa.Value{c.resolve(lk.Index, e)}}}
 		}
 	case *ssa.Call:
-		if f := x.Call.StaticCallee(); f != nil {
+		if f := c.calleeE(x, e); f != nil {
 			var ks []string
+			var rargs []ssa.Value
 			for _, a := range x.Call.Args {
 				ks = append(ks, c.key(a, e))
+				rargs = append(rargs, c.resolve(a, e))
 			}
 			name := f.String()
 			if inModule(f) {
 				name = fnName(f)
 			}
-			return []Atom{{Kind: "call", Subj: name, Val: strings.Join(ks, ","), Pos: pol, Src: cond, Args: x.Call.Args, Fn: f}}
+			return []Atom{{Kind: "call", Subj: name, Val: strings.Join(ks, ","), Pos: pol, Src: cond, Args: rargs, Fn: f}}
 		}
 	case *ssa.Phi:
 		// a && b  /  a || b used as a value: phi of constants and sub-conditions.
